@@ -165,7 +165,7 @@ func c05Preamble() (panicked any) {
 	return out.Panic
 }
 
-func c05WarmUp(ws []c05Warm) (panicked any) {
+func c05WarmUp(ws []c05Warm) (panicked any, known string) {
 	for i := range ws {
 		w := &ws[i]
 		wc := c05Case{S: w.S, D: w.D}
@@ -187,28 +187,38 @@ func c05WarmUp(ws []c05Warm) (panicked any) {
 			out = c05Run("", &w.D, t.Interface())
 		}
 		if out.Panic != nil {
-			return out.Panic
+			o := c05NewOracle()
+			o.walkStruct(w.S, &w.D, reflect.Value{}, "")
+			k := c05PanicKnown(o, fmt.Sprint(out.Panic))
+			if k == "" && strings.HasPrefix(w.EP, "confyaml") || w.EP == "yaml" {
+				yv := w.D.yamlView()
+				o2 := c05NewOracle()
+				o2.walkStruct(w.S, &yv, reflect.Value{}, "")
+				k = c05PanicKnown(o2, fmt.Sprint(out.Panic))
+			}
+			return out.Panic, k
 		}
 	}
-	return nil
+	return nil, ""
 }
 
-// c05History runs preamble and warm-ups; a non-empty string is a P0 failure.
-func c05History(ws []c05Warm) string {
+// c05History runs preamble and warm-ups; a non-empty message is a P0 failure
+// (known = the narrow predicate of a known panic, if the warm-up document matches one).
+func c05History(ws []c05Warm) (msg, known string) {
 	if p := c05Preamble(); p != nil {
-		return fmt.Sprintf("P0 a call of the fixed preamble panicked: %v", p)
+		return fmt.Sprintf("P0 a call of the fixed preamble panicked: %v", p), ""
 	}
-	if p := c05WarmUp(ws); p != nil {
-		return fmt.Sprintf("P0 a warm-up call panicked: %v", p)
+	if p, k := c05WarmUp(ws); p != nil {
+		return fmt.Sprintf("P0 a warm-up call panicked: %v", p), k
 	}
-	return ""
+	return "", ""
 }
 
 func c05InterpJSON(c c05Case) (v kit.Verdict) {
 	defer c05EnvCleanup()
 	c.D = c.D.expand()
-	if msg := c05History(c.W); msg != "" {
-		return kit.Verdict{Fail: msg, Classes: []string{"history-panic"}}
+	if msg, known := c05History(c.W); msg != "" {
+		return kit.Verdict{Fail: msg, Known: known, Classes: []string{"history-panic"}}
 	}
 	target, ok := c05Target(&c)
 	if !ok || c.D.T != "obj" {
@@ -388,7 +398,7 @@ func c05Scribble(v reflect.Value) (touched bool) {
 			v.SetMapIndex(k, e)
 			touched = true
 		}
-		v.SetMapIndex(reflect.ValueOf("scribbled-extra-key"), reflect.Zero(v.Type().Elem()))
+		v.SetMapIndex(reflect.ValueOf("scribbled-extra-key").Convert(v.Type().Key()), reflect.Zero(v.Type().Elem()))
 		return true
 	}
 	return touched
@@ -548,8 +558,8 @@ func TestVerif_C05_json(t *testing.T) {
 func c05InterpYAML(c c05Case) (v kit.Verdict) {
 	defer c05EnvCleanup()
 	c.D = c.D.expand()
-	if msg := c05History(c.W); msg != "" {
-		return kit.Verdict{Fail: msg, Classes: []string{"history-panic"}}
+	if msg, known := c05History(c.W); msg != "" {
+		return kit.Verdict{Fail: msg, Known: known, Classes: []string{"history-panic"}}
 	}
 	tj, ok := c05Target(&c)
 	if !ok || c.D.T != "obj" {
@@ -669,6 +679,20 @@ func c05RespellInto(rt *rapid.T, fs []c05Fld, out *c05JV) {
 		key := f.key(i)
 		style := c05W(rt, "respell", []string{"same", "snake", "flip", "usnake"}, []int{20, 35, 35, 10})
 		nk := key
+		switch {
+		case f.FK != "" && (style == "snake" || style == "usnake"):
+			// fixed key of a compiled struct: traceId -> trace_id
+			var b strings.Builder
+			for _, r := range f.FK {
+				if r >= 'A' && r <= 'Z' {
+					b.WriteByte('_')
+					r += 'a' - 'A'
+				}
+				b.WriteRune(r)
+			}
+			nk = b.String()
+			style = ""
+		}
 		switch style {
 		case "snake":
 			nk = c05Spell(f.W, i, "snake")
